@@ -218,6 +218,19 @@ CalKind(s) ==
   IF ~IsASCII(s) THEN "unk"
   ELSE IF WeekdayIdx(s) >= 0 THEN "weekday" ELSE IF MonthIdx(s) >= 0 THEN "month" ELSE "no"
 CtxKind(s) == IF CalKind(s) = "no" THEN NumKind(s) ELSE CalKind(s)
+\* LOOK-ALIKES.  Only the names and abbreviations listed in the two tables have a calendar
+\* position.  A key that merely BEGINS like one of them ("monitoring", "sunrise", "Thu.",
+\* "Mondays", "Sept.") is not a weekday or a month: CalKind says "no", the key is plain text (or a
+\* number) and is ordered as such.
+TabNames(tab) == {tab[i][1] : i \in 1..Len(tab)}
+LookAlikeOf(tab, s) == LET l == LowerASCII(s) IN
+  l \notin TabNames(tab) /\ \E n \in TabNames(tab) : HasPrefix(l, n)
+LookAlike(s) == IsASCII(s) /\ CalKind(s) = "no" /\ (LookAlikeOf(WeekdayTab, s) \/ LookAlikeOf(MonthTab, s))
+\* NEGATIVE CONTROL (not the specification): a position "via the 3-letter abbreviation" for every
+\* key longer than 3 bytes whose first three letters are in the table
+Prefix3Idx(tab, s) ==
+  IF TabIdx(tab, s) >= 0 THEN TabIdx(tab, s)
+  ELSE IF Len(s) > 3 THEN TabIdx(tab, SubSeq(s, 1, 3)) ELSE 0 - 1
 \* layout detection (dateparse) is trusted only on the five layouts and on digit-free ASCII keys
 \* (never dates); any other key with a digit is "num" (a number, still not specified in date
 \* mode) or "unk"
